@@ -171,8 +171,81 @@ fn cornered_king(rng: &mut Rng) -> Option<Pos> {
     }
 }
 
+/// Mates (or mate threats) delivered by a rare kind of move: an under-promotion. A pawn
+/// on the seventh next to a king hemmed in on the back rank; kept only if an
+/// under-promotion actually mates (now, or as the opponent's threat after some move).
+fn underpromotion_mate(rng: &mut Rng) -> Option<Pos> {
+    for _ in 0..1500 {
+        let attacker_white = rng.chance(1, 2);
+        let (ac, dc) = if attacker_white { (0, BLACK) } else { (BLACK, 0) };
+        let (back, seventh) = if attacker_white { (7i32, 6i32) } else { (0i32, 1i32) };
+        let mut sqs = [EMPTY; 64];
+        let kf = rng.below(8) as i32;
+        let kr = if rng.chance(2, 3) { back } else { seventh };
+        sqs[(kr * 8 + kf) as usize] = K | dc;
+        for _ in 0..rng.range(2, 5) {
+            let f = kf + rng.below(5) as i32 - 2;
+            let r = if rng.chance(1, 2) { back } else { seventh };
+            if !(0..8).contains(&f) {
+                continue;
+            }
+            let s = (r * 8 + f) as usize;
+            if sqs[s] == EMPTY {
+                let t = *rng.pick(&[N, B, R, P, P, B, N]);
+                if t != P || r == seventh {
+                    sqs[s] = t | dc;
+                }
+            }
+        }
+        let pf = kf + rng.below(5) as i32 - 2;
+        if !(0..8).contains(&pf) || sqs[(seventh * 8 + pf) as usize] != EMPTY {
+            continue;
+        }
+        sqs[(seventh * 8 + pf) as usize] = P | ac;
+        for _ in 0..30 {
+            let s = rng.usize_below(64);
+            if sqs[s] == EMPTY {
+                sqs[s] = K | ac;
+                break;
+            }
+        }
+        for _ in 0..rng.below(3) {
+            let s = rng.usize_below(64);
+            if sqs[s] == EMPTY {
+                sqs[s] = *rng.pick(&[N, B, R, Q]) | ac;
+            }
+        }
+        let attacker_to_move = rng.chance(1, 2);
+        let pos = Pos {
+            sq: sqs,
+            white: attacker_white == attacker_to_move,
+            castle: [false; 4],
+            ep: None,
+            hmc: rng.below(21) as u32,
+            fmn: rng.range(1, 90) as u32,
+        };
+        if !pos.is_sane() || pos.legal_moves().is_empty() {
+            continue;
+        }
+        let under = |m: &super::super::refmodel::Mv| m.promo == N || m.promo == B || m.promo == R;
+        if attacker_to_move {
+            if Solver::mating_moves(&pos).iter().any(under) {
+                return Some(pos);
+            }
+        } else {
+            for m in pos.legal_moves() {
+                if Solver::mating_moves(&pos.make(m)).iter().any(under) {
+                    return Some(pos);
+                }
+            }
+        }
+    }
+    None
+}
+
 fn candidate(rng: &mut Rng) -> Option<Pos> {
-    match rng.below(12) {
+    match rng.below(13) {
+        12 => underpromotion_mate(rng),
         10..=11 => cornered_king(rng),
         0..=4 => attacker_ending(rng),
         5..=7 => {
@@ -340,6 +413,9 @@ pub fn check(plans: &[Plan], recs: &[RunRec]) -> Outcome {
             earlier - 1
         );
         if class.m1 {
+            if Solver::mating_moves(&pos).iter().any(|m| m.promo != 0 && m.promo != Q) {
+                out.stats.inc("reach.mate_by_underpromotion_available");
+            }
             if after.is_checkmate() {
                 out.stats.inc("ok.mate_in_1_played");
             } else {
@@ -381,9 +457,16 @@ pub fn check(plans: &[Plan], recs: &[RunRec]) -> Outcome {
             let mut budget = Solver::new(1_500_000);
             'replies: for r in after.legal_moves() {
                 let p2 = after.make(r);
-                if insufficient(&p2, pos.white) {
+                let defender_bare_now = p2
+                    .sq
+                    .iter()
+                    .filter(|&&p| p != EMPTY && ((p & BLACK == 0) != pos.white))
+                    .all(|&p| ptype(p) == K);
+                // K (+ one minor) against a BARE king cannot mate at all. (Against a king with
+                // pieces of its own it can - smothered corners - so that case goes to the solver.)
+                if defender_bare_now && insufficient(&p2, pos.white) {
                     verdict = "lost";
-                    why = format!("after {} the attacker has no mating material left", r.uci());
+                    why = format!("after {} the attacker has no mating material left against a bare king", r.uci());
                     break;
                 }
                 let mut settled = None;
@@ -408,7 +491,7 @@ pub fn check(plans: &[Plan], recs: &[RunRec]) -> Outcome {
                             .iter()
                             .filter(|&&p| p != EMPTY && ((p & BLACK == 0) != pos.white))
                             .all(|&p| ptype(p) == K);
-                        if defender_bare {
+                        if defender_bare && !insufficient(&p2, pos.white) {
                             // bare king: mating material kept is the textbook certificate
                             continue;
                         }
